@@ -114,6 +114,12 @@ func (s *pkScriptInfo) ScriptClass() txscript.ScriptClass {
 func ParsePkScript(pkScript []byte, chainParams *config.Params) (PkScript, error) {
 
 	scriptClass, pops := txscript.GetScriptInfo(pkScript)
+	switch scriptClass {
+	case txscript.WitnessV0ScriptHashTy, txscript.StakingScriptHashTy, txscript.BindingScriptHashTy:
+	default:
+		// GetParsedOpcode fails with an anonymous error for every other class
+		return nil, ErrUnsupportedScript
+	}
 	height, scriptHash, err := txscript.GetParsedOpcode(pops, scriptClass)
 	if err != nil {
 		return nil, err
@@ -152,7 +158,8 @@ func ParsePkScript(pkScript []byte, chainParams *config.Params) (PkScript, error
 			ret.maturity = consensus.MASSIP0002BindingLockedPeriod
 		}
 		if err != nil {
-			return nil, err
+			// a binding target that is not an address (unknown type or size byte)
+			return nil, ErrUnsupportedScript
 		}
 	default:
 		return nil, ErrUnsupportedScript
